@@ -97,6 +97,7 @@ def c15_rf19(run):
     run.min_instances('RF81', 10)
     rf_tables.rf94(run)
     run.min_instances('RF94', 150)
+    rf_proto.rf102(run)
 
 
 def c15_rf16h(run):
